@@ -96,6 +96,11 @@ class PostRecorder:
             q = kwargs["json"]["query"]
             res = graphql_sync(self.schema, q)
             return httpx.Response(int(self.mode.rsplit("-", 1)[1]), json={"data": res.data}, request=req)
+        if self.mode == "errors-with-usable-data":
+            # the server reports errors AND ships a complete-looking result (a resolver failed somewhere and its value was nulled): the errors decide
+            q = kwargs["json"]["query"]
+            res = graphql_sync(self.schema, q)
+            return httpx.Response(200, json={"data": res.data, "errors": [{"message": "Cannot return null for field __InputValue.defaultValue", "path": ["__schema", "types", 3]}]}, request=req)
         if self.mode == "status-500":
             return httpx.Response(500, text="boom", request=req)
         if self.mode == "status-404":
@@ -140,7 +145,7 @@ class PostRecorder:
 
 
 FAILURE_MODES = ["valid-body-status-300", "valid-body-status-302", "valid-body-status-304", "valid-body-status-404", "valid-body-status-500", "status-500", "status-404", "status-302", "non-json", "non-json-latin1", "non-json-binary", "empty-body", "truncated-json", "json-string", "json-number", "json-array", "json-null", "no-data-key", "errors", "errors-with-data", "data-null", "data-list",
-                 "data-empty-object", "data-schema-null", "data-schema-garbage"]
+                 "data-empty-object", "data-schema-null", "data-schema-garbage", "errors-with-usable-data"]
 # urls that are wrong as urls (they never reach the network); an empty url is a configuration error, unresolvable hosts are not url errors
 BAD_URLS = ["not a url", "htp:/x", "://missing-scheme", "example.test/graphql", "http://[::1", "ftp://example.test/graphql"]
 
